@@ -69,7 +69,11 @@ type scaleEnv struct {
 	amtExp  map[*types.Var]lin // exponent of Amount-typed variables
 	valForm map[*types.Var]lin // value of exponent-typed (uint32/int) variables
 	scale   map[*types.Var]lin // decimal scale of quantity variables (int64/float64)
+	amtVal  map[*types.Var]lin // scale of an Amount variable's value while it is set apart from its exponent
 	nOb     int
+	paths   int
+	buf     *obBuf
+	onReturn func(*ast.ReturnStmt)
 	ff      *core.FuncFlow
 }
 
@@ -88,10 +92,13 @@ func (e *scaleEnv) expOfAmount(x ast.Expr) (lin, bool) {
 	switch v := x.(type) {
 	case *ast.Ident:
 		if vr := core.VarOf(e.info, v); vr != nil {
-			if f, ok := e.amtExp[vr]; ok {
-				return f, true
+			f := e.expOfVar(vr)
+			if vs, apart := e.amtVal[vr]; apart {
+				// the variable is used as a whole amount: its value must be at its exponent's scale
+				e.ob(v.Pos(), "consistent:"+vr.Name(), vs.eq(f),
+					fmt.Sprintf("the amount %s is used with a value at scale %s but exponent %s: the result is off by a power of ten", vr.Name(), vs, f))
 			}
-			return lin{vr.Name() + ".exp": 1}, true
+			return f, true
 		}
 	case *ast.CallExpr:
 		fn := core.Callee(e.info, v)
@@ -112,6 +119,26 @@ func (e *scaleEnv) expOfAmount(x ast.Expr) (lin, bool) {
 		}
 	}
 	return nil, false
+}
+
+func (e *scaleEnv) expOfVar(vr *types.Var) lin {
+	if f, ok := e.amtExp[vr]; ok {
+		return f
+	}
+	return lin{vr.Name() + ".exp": 1}
+}
+
+// amountVar: x is a plain Amount-typed variable (not a field).
+func (e *scaleEnv) amountVar(x ast.Expr) *types.Var {
+	id, ok := ast.Unparen(x).(*ast.Ident)
+	if !ok {
+		return nil
+	}
+	vr := core.VarOf(e.info, id)
+	if vr == nil || vr.IsField() || !isAmountType(vr.Type()) {
+		return nil
+	}
+	return vr
 }
 
 // expValue: the value of an exponent-typed expression as a linear form.
@@ -137,6 +164,9 @@ func (e *scaleEnv) expValue(x ast.Expr) (lin, bool) {
 		return lin{vr.Name(): 1}, true
 	case *ast.SelectorExpr:
 		if f := core.FieldOf(e.info, v); f != nil && f.Name() == "exp" {
+			if vr := e.amountVar(v.X); vr != nil {
+				return e.expOfVar(vr), true
+			}
 			return e.expOfAmount(v.X)
 		}
 	case *ast.CallExpr:
@@ -187,6 +217,12 @@ func (e *scaleEnv) quantity(x ast.Expr) (lin, bool) {
 		return nil, false
 	case *ast.SelectorExpr:
 		if f := core.FieldOf(e.info, v); f != nil && f.Name() == "value" {
+			if vr := e.amountVar(v.X); vr != nil {
+				if vs, apart := e.amtVal[vr]; apart {
+					return vs, true
+				}
+				return e.expOfVar(vr), true
+			}
 			return e.expOfAmount(v.X)
 		}
 	case *ast.UnaryExpr:
@@ -213,10 +249,14 @@ func (e *scaleEnv) quantity(x ast.Expr) (lin, bool) {
 			if cfd := e.c.P.DeclOf(fn); cfd != nil && len(cfd.Decl.Body.List) == 1 {
 				if r, ok := cfd.Decl.Body.List[0].(*ast.ReturnStmt); ok && len(r.Results) == 1 {
 					if rexp, ok := e.expOfAmount(core.RecvExpr(v)); ok {
-						sub := &scaleEnv{c: e.c, fd: cfd, info: cfd.Pkg.TypesInfo, amtExp: map[*types.Var]lin{}, valForm: map[*types.Var]lin{}, scale: map[*types.Var]lin{}}
+						sub := &scaleEnv{c: e.c, fd: cfd, info: cfd.Pkg.TypesInfo, amtExp: map[*types.Var]lin{}, valForm: map[*types.Var]lin{}, scale: map[*types.Var]lin{}, amtVal: map[*types.Var]lin{}}
 						if rv := recvVar(cfd); rv != nil {
 							sub.amtExp[rv] = rexp
 						}
+						if e.buf == nil {
+							e.buf = &obBuf{m: map[string]*bufOb{}}
+						}
+						sub.buf = e.buf
 						return sub.quantity(r.Results[0])
 					}
 				}
@@ -252,9 +292,45 @@ func opName(t token.Token) string {
 	return "comparison"
 }
 
+// obBuf holds the obligations of one function while its paths are evaluated:
+// an obligation met on several paths holds if it holds on each.
+type obBuf struct {
+	order []string
+	m     map[string]*bufOb
+}
+
+type bufOb struct {
+	pos token.Pos
+	ok  bool
+	msg string
+}
+
 func (e *scaleEnv) ob(pos token.Pos, what string, ok bool, msg string) {
 	e.nOb++
-	e.c.Ob("C05-R2", fmt.Sprintf("%s#%s", e.fd.Name(), what), pos, ok, msg)
+	if e.buf == nil {
+		e.buf = &obBuf{m: map[string]*bufOb{}}
+	}
+	k := fmt.Sprintf("%s#%s@%d", e.fd.Name(), what, pos)
+	if o := e.buf.m[k]; o != nil {
+		if o.ok && !ok {
+			o.ok, o.msg = false, msg
+		}
+		return
+	}
+	e.buf.order = append(e.buf.order, k)
+	e.buf.m[k] = &bufOb{pos: pos, ok: ok, msg: msg}
+}
+
+// flush records the buffered obligations.
+func (e *scaleEnv) flush() {
+	if e.buf == nil {
+		return
+	}
+	for _, k := range e.buf.order {
+		o := e.buf.m[k]
+		e.c.Ob("C05-R2", k[:strings.LastIndex(k, "@")], o.pos, o.ok, o.msg)
+	}
+	e.buf = nil
 }
 
 // literal checks Amount{V, E} / Amount{value: V, exp: E}.
@@ -281,11 +357,22 @@ func (e *scaleEnv) literal(cl *ast.CompositeLit) (lin, lin, bool) {
 			ex = el
 		}
 	}
-	if vx == nil || ex == nil {
+	if vx == nil && ex == nil {
 		return nil, nil, false
 	}
+	if vx == nil {
+		// Amount{exp: E}: the value is zero, which is at any scale
+		ef, ok := e.expValue(ex)
+		if !ok {
+			return nil, nil, false
+		}
+		return ef, ef, true
+	}
 	vs, ok1 := e.quantity(vx)
-	ef, ok2 := e.expValue(ex)
+	ef, ok2 := lin{}, true // Amount{value: V}: exponent zero
+	if ex != nil {
+		ef, ok2 = e.expValue(ex)
+	}
 	if !ok1 || !ok2 {
 		e.c.Undecided("C05-R2", fmt.Sprintf("%s#literal@%s", e.fd.Name(), types.ExprString(cl)), cl.Pos(), "cannot evaluate the scale of the value or the exponent expression")
 		return nil, nil, false
@@ -295,21 +382,41 @@ func (e *scaleEnv) literal(cl *ast.CompositeLit) (lin, lin, bool) {
 	return vs, ef, true
 }
 
-func (e *scaleEnv) stmts(list []ast.Stmt) {
-	for _, s := range list {
+// stmts evaluates a statement list path by path: what follows an if or switch
+// is evaluated once under each branch's facts (the functions of package num are
+// a few lines long), so that facts established differently on each branch — both
+// operands brought to one exponent, whichever it is — are not lost at the join.
+// The result tells whether every path through the list ends in a return.
+func (e *scaleEnv) stmts(list []ast.Stmt) bool {
+	for i, s := range list {
 		switch st := s.(type) {
+		case *ast.DeclStmt:
+			if gd, ok := st.Decl.(*ast.GenDecl); ok {
+				for _, sp := range gd.Specs {
+					if vs, ok := sp.(*ast.ValueSpec); ok && len(vs.Names) == len(vs.Values) {
+						for j, nm := range vs.Names {
+							e.assign(nm, vs.Values[j])
+						}
+					}
+				}
+			}
 		case *ast.AssignStmt:
-			if len(st.Lhs) == len(st.Rhs) {
+			if st.Tok != token.ASSIGN && st.Tok != token.DEFINE {
+				if len(st.Lhs) == 1 && len(st.Rhs) == 1 {
+					e.opAssign(st.Lhs[0], st.Tok, st.Rhs[0])
+				}
+			} else if len(st.Lhs) == len(st.Rhs) {
 				for i, l := range st.Lhs {
 					e.assign(l, st.Rhs[i])
 				}
 			} else if len(st.Rhs) == 1 {
 				// a, a2 = rescaleAmountPair(a, a2): both get one common exponent
 				if call, ok := ast.Unparen(st.Rhs[0]).(*ast.CallExpr); ok {
-					if fn := core.Callee(e.info, call); fn != nil && commonExpPair(e.c.P, fn) {
+					if fn := core.Callee(e.info, call); fn != nil && commonExpPair(e.c, fn) {
 						for _, l := range st.Lhs {
 							if v := core.VarOf(e.info, l); v != nil {
 								e.amtExp[v] = lin{"common.exp": 1}
+								delete(e.amtVal, v)
 							}
 						}
 					}
@@ -321,15 +428,29 @@ func (e *scaleEnv) stmts(list []ast.Stmt) {
 			}
 			e.compare(st.Cond)
 			save := e.snapshot()
-			e.stmts(st.Body.List)
+			e.paths++
+			split := e.paths < 200
+			tBody := e.stmts(st.Body.List)
+			if !tBody && split {
+				e.stmts(list[i+1:])
+			}
 			e.restore(save)
+			tElse := false
 			if st.Else != nil {
 				if b, ok := st.Else.(*ast.BlockStmt); ok {
-					e.stmts(b.List)
+					tElse = e.stmts(b.List)
 				} else {
-					e.stmts([]ast.Stmt{st.Else})
+					tElse = e.stmts([]ast.Stmt{st.Else})
 				}
-				e.restore(save)
+				if !split {
+					e.restore(save)
+				}
+			}
+			if tElse && (tBody || split) {
+				return tBody
+			}
+			if tElse {
+				return false
 			}
 		case *ast.ReturnStmt:
 			for _, r := range st.Results {
@@ -344,25 +465,48 @@ func (e *scaleEnv) stmts(list []ast.Stmt) {
 						// returning an existing amount unchanged: its exponent must be the documented one, or
 						// the function has established equality by its guards (Rescale's final `return a`)
 						e.checkResultLoose(r.Pos(), ef)
+					} else if _, documented := e.expected(); documented && e.onReturn == nil {
+						e.c.Undecided("C05-R2", fmt.Sprintf("%s#result@%s", e.fd.Name(), types.ExprString(r)), r.Pos(), "the exponent of the amount returned cannot be evaluated (a helper of unknown result precision)")
 					}
 				}
 			}
+			if e.onReturn != nil {
+				e.onReturn(st)
+			}
+			return true
 		case *ast.BlockStmt:
-			e.stmts(st.List)
+			if e.stmts(st.List) {
+				return true
+			}
 		case *ast.SwitchStmt:
 			if st.Init != nil {
 				e.stmts([]ast.Stmt{st.Init})
 			}
+			save := e.snapshot()
+			hasDefault, all := false, true
 			for _, cc := range st.Body.List {
 				cl := cc.(*ast.CaseClause)
+				if cl.List == nil {
+					hasDefault = true
+				}
 				if st.Tag == nil {
 					for _, cnd := range cl.List {
 						e.compare(cnd)
 					}
 				}
-				save := e.snapshot()
-				e.stmts(cl.Body)
 				e.restore(save)
+				e.paths++
+				t := e.stmts(cl.Body)
+				if !t {
+					all = false
+					if e.paths < 200 {
+						e.stmts(list[i+1:])
+					}
+				}
+			}
+			e.restore(save)
+			if hasDefault && (all || e.paths < 200) {
+				return all
 			}
 		case *ast.ForStmt:
 			e.stmts(st.Body.List)
@@ -370,9 +514,48 @@ func (e *scaleEnv) stmts(list []ast.Stmt) {
 			e.stmts(st.Body.List)
 		}
 	}
+	return false
 }
 
-func (e *scaleEnv) snapshot() [3]map[*types.Var]lin {
+// fieldOfAmountVar: l is v.value or v.exp of a plain Amount variable v.
+func (e *scaleEnv) fieldOfAmountVar(l ast.Expr) (*types.Var, string) {
+	sel, ok := ast.Unparen(l).(*ast.SelectorExpr)
+	if !ok {
+		return nil, ""
+	}
+	f := core.FieldOf(e.info, sel)
+	if f == nil || (f.Name() != "value" && f.Name() != "exp") {
+		return nil, ""
+	}
+	if vr := e.amountVar(sel.X); vr != nil {
+		return vr, f.Name()
+	}
+	return nil, ""
+}
+
+// setField: v.value = r or v.exp = r on an amount held by value: from here the
+// value's scale and the exponent are followed apart until the amount is used whole.
+func (e *scaleEnv) setField(vr *types.Var, field string, f lin) {
+	if _, apart := e.amtVal[vr]; !apart {
+		e.amtVal[vr] = e.expOfVar(vr)
+	}
+	if field == "value" {
+		e.amtVal[vr] = f
+	} else {
+		e.amtExp[vr] = f
+	}
+}
+
+func (e *scaleEnv) opAssign(l ast.Expr, tok token.Token, r ast.Expr) {
+	binop := map[token.Token]token.Token{token.ADD_ASSIGN: token.ADD, token.SUB_ASSIGN: token.SUB, token.MUL_ASSIGN: token.MUL, token.QUO_ASSIGN: token.QUO}[tok]
+	if binop == token.ILLEGAL {
+		return
+	}
+	be := &ast.BinaryExpr{X: l, OpPos: l.Pos(), Op: binop, Y: r}
+	e.assign(l, be)
+}
+
+func (e *scaleEnv) snapshot() [4]map[*types.Var]lin {
 	cp := func(m map[*types.Var]lin) map[*types.Var]lin {
 		r := map[*types.Var]lin{}
 		for k, v := range m {
@@ -380,13 +563,13 @@ func (e *scaleEnv) snapshot() [3]map[*types.Var]lin {
 		}
 		return r
 	}
-	return [3]map[*types.Var]lin{cp(e.amtExp), cp(e.valForm), cp(e.scale)}
+	return [4]map[*types.Var]lin{cp(e.amtExp), cp(e.valForm), cp(e.scale), cp(e.amtVal)}
 }
 
-func (e *scaleEnv) restore(s [3]map[*types.Var]lin) {
-	e.amtExp, e.valForm, e.scale = s[0], s[1], s[2]
+func (e *scaleEnv) restore(s [4]map[*types.Var]lin) {
+	e.amtExp, e.valForm, e.scale, e.amtVal = s[0], s[1], s[2], s[3]
 	s2 := e.snapshot()
-	e.amtExp, e.valForm, e.scale = s2[0], s2[1], s2[2]
+	e.amtExp, e.valForm, e.scale, e.amtVal = s2[0], s2[1], s2[2], s2[3]
 }
 
 func (e *scaleEnv) compare(cond ast.Expr) {
@@ -422,10 +605,21 @@ func (e *scaleEnv) compare(cond ast.Expr) {
 }
 
 func (e *scaleEnv) assign(l, r ast.Expr) {
+	if vr, field := e.fieldOfAmountVar(l); vr != nil {
+		if field == "value" {
+			if f, ok := e.quantity(r); ok {
+				e.setField(vr, field, f)
+			}
+		} else if f, ok := e.expValue(r); ok {
+			e.setField(vr, field, f)
+		}
+		return
+	}
 	v := core.VarOf(e.info, l)
 	if v == nil {
 		return
 	}
+	delete(e.amtVal, v)
 	switch {
 	case isAmountType(v.Type()):
 		if cl, ok := ast.Unparen(r).(*ast.CompositeLit); ok {
@@ -561,29 +755,40 @@ func (e *scaleEnv) checkResultLoose(pos token.Pos, ef lin) {
 	e.ob(pos, "result-exp-unchanged", gt && lt, fmt.Sprintf("the amount is returned unchanged with exponent %s although the documented result precision is %s and the two have not been found equal", ef, want))
 }
 
-// commonExpPair recognises rescaleAmountPair: returns x.Rescale(E), y.Rescale(E) with one E.
-func commonExpPair(p *core.Program, fn *types.Func) bool {
-	fd := p.DeclOf(fn)
+// commonExpPair recognises rescaleAmountPair: every return of the function hands
+// back two amounts at one and the same exponent (evaluated path by path).
+func commonExpPair(c *core.Ctx, fn *types.Func) bool {
+	fd := c.P.DeclOf(fn)
 	if fd == nil {
 		return false
 	}
-	ok := false
-	ast.Inspect(fd.Decl.Body, func(n ast.Node) bool {
-		r, isR := n.(*ast.ReturnStmt)
-		if !isR || len(r.Results) != 2 {
-			return true
+	sig := fn.Type().(*types.Signature)
+	if sig.Results().Len() != 2 || !isAmountType(sig.Results().At(0).Type()) || !isAmountType(sig.Results().At(1).Type()) {
+		return false
+	}
+	e := &scaleEnv{c: c, fd: fd, info: fd.Pkg.TypesInfo, amtExp: map[*types.Var]lin{}, valForm: map[*types.Var]lin{}, scale: map[*types.Var]lin{}, amtVal: map[*types.Var]lin{}}
+	n, ok := 0, true
+	e.onReturn = func(r *ast.ReturnStmt) {
+		n++
+		if len(r.Results) != 2 {
+			ok = false
+			return
 		}
-		c1, ok1 := ast.Unparen(r.Results[0]).(*ast.CallExpr)
-		c2, ok2 := ast.Unparen(r.Results[1]).(*ast.CallExpr)
-		if ok1 && ok2 && len(c1.Args) == 1 && len(c2.Args) == 1 && sameExpr(c1.Args[0], c2.Args[0]) {
-			f1, f2 := core.Callee(fd.Pkg.TypesInfo, c1), core.Callee(fd.Pkg.TypesInfo, c2)
-			if f1 != nil && f1 == f2 && f1.Name() == "Rescale" {
-				ok = true
+		a, ok1 := e.expOfAmount(r.Results[0])
+		b, ok2 := e.expOfAmount(r.Results[1])
+		if !ok1 || !ok2 || !a.eq(b) {
+			ok = false
+		}
+	}
+	e.stmts(fd.Decl.Body.List)
+	if e.buf != nil {
+		for _, o := range e.buf.m {
+			if !o.ok {
+				ok = false
 			}
 		}
-		return true
-	})
-	return ok
+	}
+	return ok && n > 0
 }
 
 // C05 — decimal amount arithmetic.
@@ -735,8 +940,9 @@ func C05(c *core.Ctx) {
 		if fd.Obj.Name() == "MakeAmount" {
 			continue
 		}
-		e := &scaleEnv{c: c, fd: fd, info: fd.Pkg.TypesInfo, amtExp: map[*types.Var]lin{}, valForm: map[*types.Var]lin{}, scale: map[*types.Var]lin{}}
+		e := &scaleEnv{c: c, fd: fd, info: fd.Pkg.TypesInfo, amtExp: map[*types.Var]lin{}, valForm: map[*types.Var]lin{}, scale: map[*types.Var]lin{}, amtVal: map[*types.Var]lin{}}
 		e.stmts(fd.Decl.Body.List)
+		e.flush()
 		if e.nOb == 0 {
 			c.Undecided("C05-R2", fd.Name()+"#no-obligations", fd.Decl.Pos(), "no scale obligation could be derived for this operation")
 		}
@@ -935,6 +1141,132 @@ func c05Split(c *core.Ctx) {
 	c.Ob("C05-R3", fd.Name()+"#remainder", fd.Decl.Pos(), ok, "the parts of a split no longer add back to the original: "+why)
 }
 
+// sideFinder answers: from which one of the base variables (the operands of a
+// binary operation) is an integer or amount expression computed? Exponents
+// (uint32) carry no operand. Locals are followed through their definitions,
+// tuple results through the returns of the module function called.
+type sideFinder struct {
+	p    *core.Program
+	info *types.Info
+	ld   *core.LocalDefs
+	base map[*types.Var]bool
+}
+
+func (sf *sideFinder) side(e ast.Expr, depth int) *types.Var {
+	if depth > 5 {
+		return nil
+	}
+	var found *types.Var
+	mixed := false
+	note := func(s *types.Var) {
+		if s != nil {
+			if found != nil && found != s {
+				mixed = true
+			}
+			found = s
+		}
+	}
+	ast.Inspect(e, func(n ast.Node) bool {
+		if x, ok := n.(ast.Expr); ok {
+			if b, isB := typeBasic(sf.info.TypeOf(x)); isB && b.Kind() == types.Uint32 {
+				return false // an exponent
+			}
+		}
+		id, ok := n.(*ast.Ident)
+		if !ok {
+			return true
+		}
+		v, ok := sf.info.Uses[id].(*types.Var)
+		if !ok || v.IsField() {
+			return true
+		}
+		if sf.base[v] {
+			note(v)
+			return true
+		}
+		if !isAmountType(v.Type()) {
+			if b, isB := typeBasic(v.Type()); !isB || b.Info()&(types.IsInteger|types.IsFloat) == 0 {
+				return true
+			}
+		}
+		for _, d := range sf.ld.All(v) {
+			if d.RHS == nil {
+				continue
+			}
+			if d.N > 1 {
+				note(sf.tupleSide(d, depth))
+				continue
+			}
+			note(sf.side(d.RHS, depth+1))
+		}
+		return true
+	})
+	if mixed {
+		return nil
+	}
+	return found
+}
+
+// tupleSide: `x, y := f(a, b)`: the operand the d.Idx-th result of f is computed
+// from in every return of f, mapped back through f's parameters.
+func (sf *sideFinder) tupleSide(d core.DefSite, depth int) *types.Var {
+	call, ok := ast.Unparen(d.RHS).(*ast.CallExpr)
+	if !ok {
+		return nil
+	}
+	fn := core.Callee(sf.info, call)
+	if fn == nil || !core.InModule(fn.Pkg()) {
+		return nil
+	}
+	cfd := sf.p.DeclOf(fn)
+	if cfd == nil {
+		return nil
+	}
+	sig := fn.Type().(*types.Signature)
+	sub := &sideFinder{p: sf.p, info: cfd.Pkg.TypesInfo, ld: core.NewLocalDefs(cfd.Pkg.TypesInfo, cfd.Decl.Body), base: map[*types.Var]bool{}}
+	for i := 0; i < sig.Params().Len(); i++ {
+		sub.base[sig.Params().At(i)] = true
+	}
+	var pv *types.Var
+	bad := false
+	ast.Inspect(cfd.Decl.Body, func(n ast.Node) bool {
+		if _, isLit := n.(*ast.FuncLit); isLit {
+			return false
+		}
+		r, isR := n.(*ast.ReturnStmt)
+		if !isR {
+			return true
+		}
+		if len(r.Results) != d.N {
+			bad = true
+			return true
+		}
+		s := sub.side(r.Results[d.Idx], depth+1)
+		if s == nil || (pv != nil && pv != s) {
+			bad = true
+		}
+		pv = s
+		return true
+	})
+	if bad || pv == nil {
+		return nil
+	}
+	for i := 0; i < sig.Params().Len() && i < len(call.Args); i++ {
+		if sig.Params().At(i) == pv {
+			return sf.side(call.Args[i], depth+1)
+		}
+	}
+	return nil
+}
+
+func typeBasic(t types.Type) (*types.Basic, bool) {
+	if t == nil {
+		return nil, false
+	}
+	b, ok := t.Underlying().(*types.Basic)
+	return b, ok
+}
+
 func c05Threshold(c *core.Ctx) {
 	p := c.P
 	// Compare sign table, by finite abstract evaluation: the function is run for the three
@@ -943,56 +1275,9 @@ func c05Threshold(c *core.Ctx) {
 		info := fd.Pkg.TypesInfo
 		recv := recvVar(fd)
 		arg := fd.Obj.Type().(*types.Signature).Params().At(0)
-		ld := core.NewLocalDefs(info, fd.Decl.Body)
 		// which operand does an integer expression belong to?
-		var side func(e ast.Expr, depth int) *types.Var
-		side = func(e ast.Expr, depth int) *types.Var {
-			if depth > 4 {
-				return nil
-			}
-			var found *types.Var
-			mixed := false
-			ast.Inspect(e, func(n ast.Node) bool {
-				id, ok := n.(*ast.Ident)
-				if !ok {
-					return true
-				}
-				v, ok := info.Uses[id].(*types.Var)
-				if !ok || v.IsField() {
-					return true
-				}
-				var s *types.Var
-				switch {
-				case v == recv || v == arg:
-					s = v
-				default:
-					// amount- or integer-typed local: where was it computed from?
-					if !isAmountType(v.Type()) {
-						if b, isB := v.Type().Underlying().(*types.Basic); !isB || b.Info()&types.IsInteger == 0 || b.Kind() == types.Uint32 {
-							return true // exponents and the like carry no operand
-						}
-					}
-					for _, d := range ld.All(v) {
-						if d.RHS != nil {
-							if ds := side(d.RHS, depth+1); ds != nil {
-								s = ds
-							}
-						}
-					}
-				}
-				if s != nil {
-					if found != nil && found != s {
-						mixed = true
-					}
-					found = s
-				}
-				return true
-			})
-			if mixed {
-				return nil
-			}
-			return found
-		}
+		sf := &sideFinder{p: p, info: info, ld: core.NewLocalDefs(info, fd.Decl.Body), base: map[*types.Var]bool{recv: true, arg: true}}
+		side := sf.side
 		for _, o := range []struct {
 			name string
 			l, r int64
